@@ -1,5 +1,6 @@
 pub mod c01;
 pub mod c02;
+pub mod c03;
 
 use engine::Space;
 
@@ -7,6 +8,7 @@ pub fn build(id: &str, tier: &str, _seed: u64) -> Option<Box<dyn Space + Sync + 
     Some(match id {
         "C01" => Box::new(c01::C01::new(tier)),
         "C02" => Box::new(c02::C02::new(tier)),
+        "C03" => Box::new(c03::C03::new(tier)),
         _ => return None,
     })
 }
